@@ -146,7 +146,8 @@ def run(ctx, res):
                 continue
             rep, nd = got
             syms = state_syms(rep)
-            i_sym = Lin.atom(syms["i"]) if "i" in syms else None
+            ikey = "i" if "i" in syms else (sorted(syms)[0] if len(syms) == 1 else None)
+            i_sym = Lin.atom(syms[ikey]) if ikey else None
             if fname in ("Fir", "Sli"):
                 stride = FIR_ENTRY if fname == "Fir" else 4
                 scale = stride if fname == "Fir" else 1     # FIR counts entries, SLI counts bytes
@@ -159,7 +160,7 @@ def run(ctx, res):
                         res.ob(solver.entails(s2.pc, flit(gt(off + stride, LEN))), "fci-row", nd, f"{fname}: iteration ends only when fewer than {stride} bytes remain", pc=s2.pc)
                         continue
                     item = r.fields["0"]
-                    res.ob(solver.entails(s2.pc, f_and(flit(le(off + stride, LEN)), flit(eq(ints["i"], i_sym + step)))), "fci-row", nd,
+                    res.ob(solver.entails(s2.pc, f_and(flit(le(off + stride, LEN)), flit(eq(ints[ikey], i_sym + step)))), "fci-row", nd,
                            f"{fname}: each step decodes one whole {stride}-byte entry at the current offset and advances by it", pc=s2.pc)
                     if fname == "Fir":
                         okf = isinstance(item, StructV) and isinstance(item.fields.get("ssrc"), IntV) and \
@@ -181,41 +182,86 @@ def run(ctx, res):
                         res.ob(bool(okf), "fci-row", nd, "SLI entry = (First 13 bits, Number 13 bits, PictureID 6 bits) of the big-endian word", detail=repr(item)[:300], pc=s2.pc)
                 res.ob(rep.progress_ok, "iter-progress", nd, f"{fname}: iteration makes progress bounded by the FCI length")
             else:
-                m_sym = Lin.atom(syms["mask_i"])
-                for tr in rep.transitions:
-                    delta, outcome, ints, bools, s2, r = tr[:6]
-                    n_dec += 1
-                    # the word examined on this step: i, or i + 1 after a wrap (mask_i > 16)
-                    wrapped = solver.entails(s2.pc, flit(gt(m_sym, NACK_WINDOW)))
-                    iw = i_sym + 1 if wrapped else i_sym
-                    m0 = lin(0) if wrapped else m_sym
-                    pid = view_be(inp, iw.scale(4), 2)
-                    blp = view_be(inp, iw.scale(4) + 2, 2)
-                    if outcome == "None":
-                        res.ob(solver.entails(s2.pc, flit(gt(iw.scale(4) + 4, LEN))), "nack-transition", nd, "NACK: iteration ends only when no whole (PID, BLP) word remains", pc=s2.pc)
-                    elif outcome == "Back":
-                        res.ob(solver.entails(s2.pc, f_and(flit(gt(ints["mask_i"], NACK_WINDOW)), flit(eq(ints["i"], iw)))), "nack-transition", nd,
-                               "NACK: the scan leaves a word only after bit 16 (then moves to the next word)", pc=s2.pc)
-                    elif outcome == "Some":
-                        y = r.fields["0"]
-                        if solver.entails(s2.pc, flit(eq(m0, 0))):
-                            okn = isinstance(y, IntV) and solver.entails(s2.pc, f_and(flit(eq(y.l, pid)), flit(eq(ints["mask_i"], 1)), flit(eq(ints["i"], iw))))
-                            res.ob(bool(okn), "nack-transition", nd, "NACK: a word first yields its PID (BE16 at 4i), then scans the bitmask from bit 1", detail=repr(y), pc=s2.pc)
+                # NACK: two integer state fields, a word index and a bit index — told apart by what the code does with
+                # them (the assignment under which the transition table holds), not by their names
+                import itertools
+
+                class Rec:
+                    def __init__(self):
+                        self.items = []
+
+                    def ob(self, ok, *a, **kw):
+                        self.items.append((bool(ok), a, kw))
+                        return ok
+
+                    def floor(self, *a):
+                        self.items.append(("floor", a, {}))
+
+                names = sorted(syms)
+                perms = [p for p in itertools.permutations(names, 2)] if len(names) >= 2 else []
+                if ("i", "mask_i") in perms:
+                    perms.remove(("i", "mask_i"))
+                    perms.insert(0, ("i", "mask_i"))
+                best = None
+                for wk, bk in perms:
+                    rec = Rec()
+                    cnt = nack_table(rec, I, rep, nd, inp, LEN, syms, wk, bk)
+                    good = all(it[0] is True for it in rec.items if it[0] != "floor")
+                    if best is None or good:
+                        best = (rec, cnt)
+                    if good:
+                        break
+                if best is None:
+                    res.ob(False, "anchor", nd, "the NACK iterator keeps a word index and a bit index")
+                else:
+                    for okv, a, kw in best[0].items:
+                        if okv == "floor":
+                            res.floor(*a)
                         else:
-                            j = ints["mask_i"] - 1
-                            okn = isinstance(y, IntV) and solver.entails(s2.pc, f_and(flit(ge(j, 1)), flit(le(j, NACK_WINDOW)), flit(ge(j, m0)), flit(eq(ints["i"], iw)))) and \
-                                solver.entails(s2.pc, flit(eq(y.l, Lin.atom(("mod", (pid + j).key(), 65536))))) and bit_tested(s2.pc, blp, j - 1)
-                            res.ob(bool(okn), "nack-transition", nd,
-                                   "NACK: a bitmask step yields PID + j (mod 2^16) for a tested set bit j-1 of BLP (BE16 at 4i+2), j in 1..=16 at or after the current position, and continues at j+1",
-                                   detail=repr(y)[:200], pc=s2.pc)
-                res.ob(rep.progress_ok, "iter-progress", nd, "NACK: (word, bit) advances lexicographically, bounded by the FCI length")
-                n_dec += scan_complete(res, I, nd, inp, syms)
+                            res.ob(okv, *a, **kw)
+                    n_dec += best[1]
     res.floor("decoder transitions / accessor results compared", n_dec, 14)
     res.analysed = {"gating_outcomes": n_gate, "decoder_checks": n_dec}
     res.assumptions.append("NACK: completeness of the bit scan (no set bit is skipped) is decided per scan step (rule nack-transition: +1, same word, the bit left was tested clear); the induction over the steps between two yields is the usual one, stated in DESIGN.md")
 
 
-def scan_complete(res, I, nd, inp, syms):
+def nack_table(res, I, rep, nd, inp, LEN, syms, wk, bk):
+    """the transition table of the NACK iterator with `wk` as the word index field and `bk` as the bit index field"""
+    n_dec = 0
+    i_sym = Lin.atom(syms[wk])
+    m_sym = Lin.atom(syms[bk])
+    for tr in rep.transitions:
+        delta, outcome, ints, bools, s2, r = tr[:6]
+        n_dec += 1
+        # the word examined on this step: i, or i + 1 after a wrap (bit index > 16)
+        wrapped = solver.entails(s2.pc, flit(gt(m_sym, NACK_WINDOW)))
+        iw = i_sym + 1 if wrapped else i_sym
+        m0 = lin(0) if wrapped else m_sym
+        pid = view_be(inp, iw.scale(4), 2)
+        blp = view_be(inp, iw.scale(4) + 2, 2)
+        if outcome == "None":
+            res.ob(solver.entails(s2.pc, flit(gt(iw.scale(4) + 4, LEN))), "nack-transition", nd, "NACK: iteration ends only when no whole (PID, BLP) word remains", pc=s2.pc)
+        elif outcome == "Back":
+            res.ob(solver.entails(s2.pc, f_and(flit(gt(ints[bk], NACK_WINDOW)), flit(eq(ints[wk], iw)))), "nack-transition", nd,
+                   "NACK: the scan leaves a word only after bit 16 (then moves to the next word)", pc=s2.pc)
+        elif outcome == "Some":
+            y = r.fields["0"]
+            if solver.entails(s2.pc, flit(eq(m0, 0))):
+                okn = isinstance(y, IntV) and solver.entails(s2.pc, f_and(flit(eq(y.l, pid)), flit(eq(ints[bk], 1)), flit(eq(ints[wk], iw))))
+                res.ob(bool(okn), "nack-transition", nd, "NACK: a word first yields its PID (BE16 at 4i), then scans the bitmask from bit 1", detail=repr(y), pc=s2.pc)
+            else:
+                j = ints[bk] - 1
+                okn = isinstance(y, IntV) and solver.entails(s2.pc, f_and(flit(ge(j, 1)), flit(le(j, NACK_WINDOW)), flit(ge(j, m0)), flit(eq(ints[wk], iw)))) and \
+                    solver.entails(s2.pc, flit(eq(y.l, Lin.atom(("mod", (pid + j).key(), 65536))))) and bit_tested(s2.pc, blp, j - 1)
+                res.ob(bool(okn), "nack-transition", nd,
+                       "NACK: a bitmask step yields PID + j (mod 2^16) for a tested set bit j-1 of BLP (BE16 at 4i+2), j in 1..=16 at or after the current position, and continues at j+1",
+                       detail=repr(y)[:200], pc=s2.pc)
+    res.ob(rep.progress_ok, "iter-progress", nd, "NACK: (word, bit) advances lexicographically, bounded by the FCI length")
+    n_dec += scan_complete(res, I, nd, inp, syms, wk, bk)
+    return n_dec
+
+
+def scan_complete(res, I, nd, inp, syms, wk="i", bk="mask_i"):
     """No set bit is skipped: every step of the bit scan that does not yield leaves the word index alone, advances the
     bit index by exactly one and has tested the bit it leaves (index mask_i - 1) as clear — on the steps that repeat the
     scan loop and on the step (if any) taken on the way out of it.  With the yield rule above this is the induction step
@@ -224,8 +270,8 @@ def scan_complete(res, I, nd, inp, syms):
     for lr in I.loop_reports:
         if lr.fn != nd or lr.kind != "loop":
             continue
-        mk = [a for a, _ in lr.carried if "mask_i" in a[1]]
-        ik = [a for a, _ in lr.carried if a[1].split("@")[0].split(".")[-1] == "i"]
+        mk = [a for a, init in lr.carried if init == Lin.atom(syms[bk])]
+        ik = [a for a, init in lr.carried if init == Lin.atom(syms[wk])]
         if not mk or not lr.backs:
             continue
         m = Lin.atom(mk[0])
@@ -235,7 +281,7 @@ def scan_complete(res, I, nd, inp, syms):
         if not all(d is not None and d.is_const() and d.c >= 1 for d in steps):
             continue
         iw = Lin.atom(ik[0]) if ik else None
-        blp = view_be(inp, Lin.atom(syms["i"]).scale(4) + 2, 2)
+        blp = view_be(inp, Lin.atom(syms[wk]).scale(4) + 2, 2)
         for (delta, new), d in zip(lr.backs, steps):
             n += 1
             same_word = iw is None or new.get(ik[0]) == iw
